@@ -103,7 +103,7 @@ def _one(args):
     with open(os.path.join(wd, "MC_%s.tla" % name), "w") as f:
         f.write(mc)
     cfg = "CONSTANTS\n Fixed = TRUE\n Configs <- MCConfigs\n MaxT = %d\n MaxSteps = 400\nINIT Init\nNEXT Next\n" % maxT
-    cfg += "".join("INVARIANT %s\n" % i for i in F_INVS) + "INVARIANT ReportOutcome\nCHECK_DEADLOCK FALSE\n"
+    cfg += "".join("INVARIANT %s\n" % i for i in F_INVS) + "INVARIANT ReportOutcome\nINVARIANT ReportInstants\nCHECK_DEADLOCK FALSE\n"
     r = tlc.run_tlc("MC_%s" % name, cfg, workers=8, timeout=limit, workdir=wd)
     out = r.as_dict()
     out["name"] = name
@@ -114,6 +114,10 @@ def _one(args):
     for cid, seq in re.findall(r'<<"F",(\d+),<<([0-9,]*)>>>>', flat):
         outcomes.setdefault(cfgs[int(cid) - 1]["name"], set()).add(seq)
     out["outcomes"] = {k: sorted(v) for k, v in outcomes.items()}
+    instants = {}
+    for cid, t, seq in re.findall(r'<<"E",(\d+),(\d+),<<([0-9,]*)>>>>', flat):
+        instants.setdefault(cfgs[int(cid) - 1]["name"], {}).setdefault(t, set()).add(seq)
+    out["instants"] = {k: {t: sorted(v) for t, v in d.items()} for k, d in instants.items()}
     if r.violations or r.errors or not r.completed:
         out["cex"] = tlc.counterexample(r.stdout)[-4:]
         out["tail"] = r.stdout[-1500:]
@@ -210,10 +214,13 @@ def conformance(tier):
     os.environ["FACTORYSIMPY_VERIF"] = "1"
     from . import factory_driver
     allowed = {}
+    instants = {}
     for r in la.values():
         allowed.update(r.get("outcomes", {}))
+        instants.update(r.get("instants", {}))
     C = model_configs(tier)
     checked = matched = 0
+    inst_checked = inst_matched = 0
     drift = []
     for c in C:
         if c["name"] not in allowed:
@@ -228,9 +235,26 @@ def conformance(tier):
         eoi = [e for e in tr["ev"] if e["k"] == "eoi"][-1]
         flat = []
         tsum = {}
+        inst_bad = None
         for e in tr["ev"]:
             if e["k"] == "get" and e["res"] == "item" and c["nodes"][e["n"]]["type"] == "sink":
                 tsum[e["n"]] = tsum.get(e["n"], 0) + e["t"]
+            if e["k"] == "eoi" and c["name"] in instants and e["t"] <= MAXT and float(e["t"]).is_integer():
+                # the same figures at the end of every instant of the real run: one of the model's end-of-instant states
+                fl = []
+                for i, n in enumerate(e["nodes"]):
+                    fl += [n["gen"], n["disc"], n["proc"], n["recv"], tsum.get(i, 0)]
+                for x in e["edges"]:
+                    fl.append(len(x["tr"]) + len(x["rd"]))
+                k2 = ",".join(str(x) for x in fl)
+                inst_checked += 1
+                if k2 in instants[c["name"]].get(str(int(e["t"])), []):
+                    inst_matched += 1
+                elif inst_bad is None:
+                    inst_bad = {"config": c["name"], "family": c["family"], "instant": e["t"], "real": k2,
+                                "model": instants[c["name"]].get(str(int(e["t"])), [])[:3]}
+        if inst_bad is not None:
+            drift.append(inst_bad)
         for i, n in enumerate(fin["nodes"]):
             flat += [n["gen"], n["disc"], n["proc"], n["recv"], tsum.get(i, 0)]
         for e in eoi["edges"]:
@@ -242,6 +266,7 @@ def conformance(tier):
         else:
             drift.append({"config": c["name"], "family": c["family"], "real": key, "model": allowed[c["name"]][:3]})
     res = {"checked": checked, "matched": matched, "drift": drift[:10], "ndrift": len(drift),
+           "instants_checked": inst_checked, "instants_matched": inst_matched,
            "model_outcome_sets": {"total": len(allowed), "with_more_than_one_outcome": sum(1 for v in allowed.values() if len(v) > 1)}}
     common.save_json(p, res)
     return res
